@@ -10,7 +10,10 @@
 //   schedule <ints>        raw detsched schedule
 //   spurious               the scheduler may wake a condition waiter that nobody notified (raw schedules only: the
 //                          `follow` chooser never picks such a move)
-//   subs: q<id> r<id> quit p<id> startLoop destroy
+//   subs: q<id> r<id> quit p<id> startLoop destroy qburst<first>x<count>
+//         ids of q/r: 0..65535 (a task without a `task` line has an empty body), of p and `task`: 0..255;
+//         qburst<first>x<count> = q<first> q<first+1> … (count calls of queueInLoop, count <= 20000): shorthand of the
+//         case language only, expanded when the line is read — trace and model see the single calls
 // Events: point <name> | exec <id> | wakeup | wakeread | post <id> | started | started null | joined | returned |
 //   destroyed | uaf   (`started null`: startLoop() returned NULL; later ops of T0 on the loop are skipped)
 // stdout: `T<k> <event>` lines, `# …` comments, then `done` | `blocked T0:<st> …`, then `--`.
@@ -301,7 +304,7 @@ void doSubs(const Subs& v) {
 }
 void execTask(int id) {
   say("exec %d", id);
-  doSubs(g_task[id & 255]);
+  if (id >= 0 && id < 256) doSubs(g_task[id]);   // ids beyond the table: empty body
   note("leave %d", id);
 }
 
@@ -406,13 +409,16 @@ void logNowhere(const char*, int) {}
 void flushNowhere() {}
 
 // ------------------------------------------------------------------------------------------ input
-bool parseId(const std::string& t, size_t from, int* id) {
-  if (from >= t.size()) return false;
+const long kMaxTaskId = 65535;    // q / r
+const long kMaxBurst = 20000;
+bool parseId(const std::string& t, size_t from, int* id, long maxv = 255, size_t to = std::string::npos) {
+  if (to == std::string::npos) to = t.size();
+  if (from >= to) return false;
   long v = 0;
-  for (size_t i = from; i < t.size(); ++i) {
+  for (size_t i = from; i < to; ++i) {
     if (t[i] < '0' || t[i] > '9') return false;
     v = v * 10 + (t[i] - '0');
-    if (v > 255) return false;
+    if (v > maxv) return false;
   }
   *id = static_cast<int>(v);
   return true;
@@ -426,8 +432,18 @@ Subs parseSubs(const std::string& text) {
     if (t == "quit") s.kind = Sub::QUIT;
     else if (t == "startLoop") s.kind = Sub::START;
     else if (t == "destroy") s.kind = Sub::DESTROY;
-    else if (t[0] == 'q' && parseId(t, 1, &s.id)) s.kind = Sub::Q;
-    else if (t[0] == 'r' && parseId(t, 1, &s.id)) s.kind = Sub::R;
+    else if (t.compare(0, 6, "qburst") == 0) {
+      size_t x = t.find('x', 6);
+      int first = 0, count = 0;
+      if (x == std::string::npos || !parseId(t, 6, &first, kMaxTaskId, x) || !parseId(t, x + 1, &count, kMaxBurst) ||
+          first + count - 1 > kMaxTaskId)
+        fail("bad token '" + t + "'");
+      s.kind = Sub::Q;
+      for (int j = 0; j < count; ++j) { s.id = first + j; r.push_back(s); }
+      continue;
+    }
+    else if (t[0] == 'q' && parseId(t, 1, &s.id, kMaxTaskId)) s.kind = Sub::Q;
+    else if (t[0] == 'r' && parseId(t, 1, &s.id, kMaxTaskId)) s.kind = Sub::R;
     else if (t[0] == 'p' && parseId(t, 1, &s.id)) s.kind = Sub::POST;
     else fail("bad token '" + t + "'");
     r.push_back(s);
